@@ -7,6 +7,7 @@ CONSTANTS
   MaxBlock = 3
   Kinds <- AllKinds
   Tiny = FALSE
+  Ops = FALSE
   Rich = TRUE
 INVARIANT DesignFaithful
 INVARIANT DeviationsExplain
